@@ -54,7 +54,7 @@ def dotted(t):
     return ".".join(t)
 
 
-BLOCK_KINDS = ["def", "class", "if", "if_else", "try", "for_else", "while_else", "with", "async_def", "type_checking", "try_import_error", "method"]
+BLOCK_KINDS = ["def", "class", "if", "if_else", "try", "for_else", "while_else", "with", "async_def", "type_checking", "try_import_error", "method", "match"]
 # one-line spellings: the import does not start a physical line ("if x: import a", "x = 1; import a", ...)
 INLINE_KINDS = ["if_inline", "def_inline", "class_inline", "for_inline", "while_inline", "with_inline", "semi"]
 
@@ -78,9 +78,16 @@ def gen_import_stmt(rng, f, mods, externals=()):
         return ("from", 0, dotted(tgt), ["*"])
     if form == "from_pkg_mod":
         if len(tgt) >= 2:
+            # one statement listing sub modules of the package and names that are no modules (objects defined in the
+            # package), in any order: every sub module named is imported, whatever stands before it
             names = [tgt[-1]]
-            if rng.random() < 0.3:
-                names.append("other_name")
+            sibs = [m[-1] for m in mods if m[:-1] == tgt[:-1] and m != tgt]
+            if sibs and rng.random() < 0.3:
+                names.append(rng.choice(sibs))
+            for _ in range(rng.choice([0, 0, 1, 2])):
+                names.append(rng.choice(["other_name", "VERSION", "helper"]))
+            names = list(dict.fromkeys(names))
+            rng.shuffle(names)
             return ("from", 0, dotted(tgt[:-1]), names)
         return ("import", [dotted(tgt)])
     pkg = f[:-1]
@@ -214,6 +221,9 @@ def render_stmt(s, ind=0, st=None):
         return [pad + "while x:"] + first + [pad + "else:"] + second
     if kind == "try":
         return [pad + "try:"] + first + [pad + "except ValueError:"] + second + [pad + "else:"] + filler + [pad + "finally:"] + filler
+    if kind == "match":
+        deeper = lambda ls: ["    " + l for l in ls]
+        return [pad + "match x:", pad + "    case 1:"] + deeper(first) + [pad + "    case _:"] + deeper(second)
     if kind == "try_import_error":
         return [pad + "try:"] + first + [pad + "except ImportError:"] + second
     raise ValueError(kind)
@@ -383,6 +393,17 @@ def excluded_table(base, dirs, files, patterns_regex):
         s = os.path.join(base, *p[:-1], p[-1] + suffix) if is_file else os.path.join(base, *p)
         if any(re.match(cp, s) for cp in cps):
             out.append(tuple(p[1:]))
+    return out
+
+
+def import_statements(body):
+    """the import statements of a file at any nesting depth"""
+    out = []
+    for s0 in body:
+        if s0[0] in ("import", "from"):
+            out.append(s0)
+        elif s0[0] == "block":
+            out.extend(import_statements(s0[2]))
     return out
 
 
